@@ -25,7 +25,7 @@ TIERS = {
 RULE = ('per run: routine in {fast_matvec, dmrg_hadamard, amen_mv, amen_mm}; order 1..6; row/column/inner mode sizes 1..6 drawn '
         'independently; operand ranks 1..4; N(0,1), geometric-decay or cancelling 10^+-6 core scales; float64 (+complex128 for DMRG); '
         'eps=10^-k, k in 1..12; initial guess in {none, random rank 1, random rank 3, exact answer, perturbed answer}; the global '
-        'torch PRNG (initial guess, rank kick, enrichment) is seeded per run from the run PRNG; on 25%% of runs primary SVD calls fail '
+        'torch PRNG (initial guess, rank kick, enrichment) is seeded per run from the run PRNG; on 25%% of runs primary SVD calls fail (late calls too) '
         'at seeded indices; distinct by (routine, order, dtype, value class, eps decade, guess kind, fault kind, singleton/odd-size flags)')
 ASSUMPTIONS = ['single-threaded BLAS, so a run is a pure function of (seed, run index, working tree)',
                'oracle constant C=5: error <= 5*eps*||exact|| (calibrated: worst observed ratio err/eps 0.81 over 200 000 runs)',
@@ -84,6 +84,8 @@ def gen_case(rng):
     if r < 0.2:
         pts = sorted(set(rng.randint(0, 40) for _ in range(rng.randint(1, 4))))
         p['plan'] = {'P': pts, 'Q': [], 'all': False, 'kind': 'subset'}
+        if rng.random() < 0.5:
+            p['plan'] = {'P': [], 'frac': sorted(rng.choice([0.0, 0.05, 0.3, 0.5, 0.8, 0.95, 0.999]) for _ in range(rng.randint(1, 3))), 'Q': [], 'all': False, 'kind': 'fraction'}
     elif r < 0.25:
         p['plan'] = {'P': [], 'Q': [], 'all': True, 'kind': 'all'}
     else:
@@ -251,6 +253,11 @@ def exec_case(p, res):
         if exc0 is None and ns and ns >= 1:
             p = dict(p, nswp=int(ns))
             core.bump(stats, 'probe.exact_sweep_budget')
+    if p['plan'] and p['plan'].get('frac') is not None:
+        def _count():
+            seams.seed_global(p['tseed'])
+            return call_routine(p, A, B, guess)
+        p = dict(p, plan=svdfault.resolve_fractions(p['plan'], _count))
     seams.seed_global(p['tseed'])
     y, exc, f = svdfault.run_with_plan(lambda: call_routine(p, A, B, guess), p['plan'] or {})
     core.bump(stats, 'calls.' + p['routine'])
